@@ -6,7 +6,7 @@ from typing import Any, Dict, List, Optional
 
 from . import terms as T
 from .progdb import AnalysisError, call_name
-from .values import (DefaultDict, ClassRef, Each, EnumRef, ExtMod, Frame, FuncRef, GroupBy, Obj, PyTuple, Ser, to_term)
+from .values import (Columns, DefaultDict, ClassRef, Each, EnumRef, ExtMod, Frame, FuncRef, GroupBy, Obj, PyTuple, Ser, to_term)
 
 _CMP = {"Lt": "<", "LtE": "<=", "Gt": ">", "GtE": ">=", "Eq": "==", "NotEq": "!=", "Is": "==", "IsNot": "!="}
 _CMP_METH = {"lt": "<", "le": "<=", "gt": ">", "ge": ">=", "eq": "==", "ne": "!="}
@@ -67,7 +67,7 @@ class Model:
             if attr in ("loc", "iloc", "at", "iat"):
                 return ("indexer", attr, v)
             if attr == "columns":
-                return ("columns", v)
+                return Columns(v)
             if attr == "index":
                 return Ser(self.ops.index_term(v), v.ctx(), v, "__index__")
             if attr == "shape":
@@ -154,6 +154,9 @@ class Model:
         if isinstance(v, (list, dict, set, str)):
             return ("method", v, attr)
         if isinstance(v, tuple) and v and v[0] == "straccessor":
+            return ("method", v, attr)
+        if isinstance(v, tuple) and v and v[0] in ("set", "frozenset", "list", "unique", "tolist", "sorted", "setop") and attr in (
+                "union", "intersection", "difference", "issubset", "issuperset", "copy", "index", "count"):
             return ("method", v, attr)
         t = to_term(v)
         return ("attr", t, attr)
@@ -293,11 +296,17 @@ class Model:
         return r
 
     def contains(self, container: Any, item: Any, node) -> T.Term:
-        if isinstance(container, tuple) and container and container[0] == "columns" and isinstance(item, str):
-            h = container[1].has(item)
+        if isinstance(container, Columns) and isinstance(item, str):
+            h = container.frame.has(item)
             if h is not None:
                 return T.C(h)
-            return ("hascol", container[1].base, item)
+            return ("hascol", container.frame.base, item)
+        if isinstance(container, tuple) and container and container[0] in ("set", "list") and len(container) == 2 and isinstance(container[1], tuple) \
+                and container[1] and container[1][0] == "columns" and isinstance(item, str):
+            cols = container[1]
+            if cols[2] is not None:
+                return T.C(item in cols[2])
+            return ("hascol", cols[1], item)
         if isinstance(container, Frame) and isinstance(item, str):
             h = container.has(item)
             return T.C(h) if h is not None else ("hascol", container.base, item)
